@@ -5,6 +5,7 @@ import importlib.abc
 import importlib.machinery
 import os
 import sys
+import types
 import typing
 
 from . import core, strs, cont, regex
@@ -83,8 +84,66 @@ BASIC = {"int": core.SInt, "float": core.SFloat, "str": strs.SStr, "bytes": strs
          "chr": strs.sym_chr, "ord": strs.sym_ord, "type": core.TypeShim}
 
 
+# Modules whose functions either call back into the operands' dunders (so nothing is read behind the shadows' back) or
+# never receive data values, or have a dedicated shim.  Built-in functions of any OTHER module that a repository module
+# imports (unicodedata, binascii, zlib, time ...) read the raw buffers of their arguments: they are wrapped so that
+# symbolic arguments are concretised with a recorded pin first (sound, never a silently dropped dependency).
+_SAFE_MODULES = {"operator", "_operator", "functools", "_functools", "itertools", "typing", "collections", "abc", "sys", "os", "logging", "re", "math",
+                 "datetime", "json", "lark", "celpy", "xlate", "pendulum", "re2", "types", "enum", "dataclasses", "textwrap", "string", "argparse",
+                 "ast", "cmd", "pathlib", "pprint", "warnings", "contextlib", "inspect", "importlib", "builtins", "base64", "csv", "io", "fnmatch",
+                 "ipaddress", "urllib", "zlib", "jmespath", "tomllib", "tomli", "yaml", "packaging", "google", "stat", "keyword", "copy", "vf", "z3"}
+
+
+def _pin_arg(x, op):
+    if strs.s_is_sym(x):
+        return strs.pin_str(x, op)
+    if strs.b_is_sym(x):
+        return strs.pin_bytes(x, op)
+    if isinstance(x, float) and core.f_is_sym(x):
+        return x._pin(op)
+    if isinstance(x, int) and core.is_sym(x):
+        core._pin_int(x, op)
+        return int.__index__(x)
+    return x
+
+
+def _pinning_builtin(fn, label):
+    def call(*a, **k):
+        op = f"str C function {label}" if any(strs.s_is_sym(x) for x in a) else f"C function {label}"
+        return fn(*[_pin_arg(x, op) for x in a], **{n: _pin_arg(v, op) for n, v in k.items()})
+    call.__name__ = getattr(fn, "__name__", "call")
+    call.__wrapped__ = fn
+    return call
+
+
+class PinningModule:
+    """stand-in for a foreign C module inside a shadow-loaded module"""
+
+    def __init__(self, real):
+        self.__dict__["_real"] = real
+
+    def __getattr__(self, n):
+        v = getattr(self._real, n)
+        if isinstance(v, types.BuiltinFunctionType):
+            return _pinning_builtin(v, f"{self._real.__name__}.{n}")
+        return v
+
+
+def _wrap_foreign(ns):
+    for k, v in list(ns.items()):
+        if k.startswith("__"):
+            continue
+        if isinstance(v, types.ModuleType):
+            if v.__name__.split(".")[0] not in _SAFE_MODULES and not hasattr(v, "__path__") and not (getattr(v, "__file__", None) or "").endswith(".py"):
+                ns[k] = PinningModule(v)
+        elif isinstance(v, types.BuiltinFunctionType) and getattr(v, "__module__", None) and \
+                v.__module__.split(".")[0] not in _SAFE_MODULES | {"builtins", "_struct", "time"} and core.CFUNC_SHIMS.get(v) is None:
+            ns[k] = _pinning_builtin(v, f"{v.__module__}.{k}")
+
+
 def _wrap_cfuncs(ns):
     import math
+    _wrap_foreign(ns)
     for k, v in list(ns.items()):
         if v is math:
             ns[k] = core.MathShim()
